@@ -241,6 +241,19 @@ def register (r : Registry) (name : Bytes) (d : TDef) : Except RegErr Registry :
     | .error e => .error e
     | .ok () => .ok (r ++ [(name, d)])
 
+/-- the definition a name is registered with (`self.templates.get(name)`; the registry has no
+public accessor for it: it is what the node announces under that name, see `announced`) -/
+def Registry.get? (r : Registry) (name : Bytes) : Option TDef :=
+  match r with
+  | [] => none
+  | e :: t => if e.1 == name then some e.2 else Registry.get? t name
+
+/-- what `Node::generate_birth_payload` puts into every NBIRTH for the registry:
+`for (name, definition) in &self.template_registry.templates` one metric named `name`, datatype
+Template, value `MetricValue::from(definition.clone())`. The order is the hash map's iteration
+order (a permutation of this list: the driver prints it sorted by name). -/
+def announced (r : Registry) : List (Bytes × MV) := r.map fun e => (e.1, defToMV e.2)
+
 /-- `deregister` -/
 def deregister (r : Registry) (name : Bytes) : Registry := r.filter (fun e => !(e.1 == name))
 
